@@ -125,6 +125,19 @@ pub fn build(raw: &Raw, _tier: Tier, _sched: bool) -> Scenario {
     for (s, _, _) in &stores {
         b.s.epilogue.push(Op::Stop { store: *s, via_trait: false });
     }
+    // half of the cases: work handed to a store that has already been stopped ("after stop() has
+    // returned nothing further runs"); the pauses give a worker that wrongly survived time to show up
+    if knob(raw, 12) % 2 == 0 {
+        for (s, _, _) in &stores {
+            let e = b.eff(EffKind::Task, false, Stall::None);
+            b.s.epilogue.push(Op::DispatchTask { store: *s, eff: e });
+            let f = b.action(*s, 0);
+            let e = b.eff(EffKind::Thunk(vec![f]), false, Stall::None);
+            b.s.epilogue.push(Op::DispatchThunk { store: *s, eff: e });
+        }
+        b.s.epilogue.push(Op::Stall(Stall::Ms2));
+        b.s.epilogue.push(Op::Stall(Stall::Yield));
+    }
     for (s, _, _) in &stores {
         b.s.epilogue.push(Op::GetState { store: *s });
     }
@@ -181,6 +194,9 @@ pub fn check(scn: &Scenario, h: &History) -> Outcome {
                 _ => continue,
             };
             let starts = obs.starts.get(&eff.id).cloned().unwrap_or_default();
+            if o.inv > sd.first_stop_ret.unwrap_or(usize::MAX) {
+                out.class("work-handed-over-after-stop");
+            }
             if starts.len() > 1 {
                 out.viol(format!("client thunk/task {} ran {} times", eff.id, starts.len()));
             }
@@ -188,6 +204,9 @@ pub fn check(scn: &Scenario, h: &History) -> Outcome {
                 out.viol(format!("client thunk/task {} was handed over while the store was running but never ran", eff.id));
             }
             for (pos, tid) in &starts {
+                if sd.first_stop_ret.map(|sr| *pos > sr).unwrap_or(false) {
+                    out.viol(format!("client thunk/task {} started at @{} although stop() of store {} had returned at @{}: after stop() has returned nothing further runs", eff.id, pos, s, sd.first_stop_ret.unwrap()));
+                }
                 if in_reducer_context(&d, s, *pos, *tid) {
                     out.viol(format!("client thunk/task {} ran in the reducer context", eff.id));
                 }
@@ -253,7 +272,7 @@ pub fn check(scn: &Scenario, h: &History) -> Outcome {
 
 pub static PROFILE: Profile = Profile {
     id: "C11",
-    rule: "proptest scenarios: 1-3 producers, 1-2 stores (blocking policy), chains of 2-3 reducers returning Task / Function / Thunk (1-2 follow-ups) / Action effects, up to two effects per action, panicking effects, before_effect removal masks, client dispatch_thunk / dispatch_task; ending either quiescent (all follow-up notifications awaited), with a backlog, or with a racing stop. Oracle O-EFFECT: run count and thread of every scripted effect, follow-ups in the producing store's pipeline after their producer, nothing after Ret(stop). Non-trivial = >= 2 effect kinds, >= 1 action with >= 2 effects and a panicking effect or a follow-up action; distinct by scenario hash.",
+    rule: "proptest scenarios: 1-3 producers, 1-2 stores (blocking policy), chains of 2-3 reducers returning Task / Function / Thunk (1-2 follow-ups) / Action effects, up to two effects per action, panicking effects, before_effect removal masks, client dispatch_thunk / dispatch_task; ending either quiescent (all follow-up notifications awaited), with a backlog, or with a racing stop; in half of the cases a task and a thunk are handed to each store after its stop() has returned (they must not run). Oracle O-EFFECT: run count and thread of every scripted effect, follow-ups in the producing store's pipeline after their producer, nothing after Ret(stop). Non-trivial = >= 2 effect kinds, >= 1 action with >= 2 effects and a panicking effect or a follow-up action; distinct by scenario hash.",
     raw,
     build,
     check,
